@@ -100,6 +100,7 @@ package node
 //@   requires[ast] wfAST(self)
 //@   requires[cr]  crOK(cr)
 //@   requires[flags] !(fl.Data().Discard && fl.Data().Returning)   // a result is either dropped or returned, never both
+//@   requires[ctx] !isExpr(self) && fl.Data().InFor ==> fl.Data().CtxLo <= fl.Data().CtxHi && fl.Data().CtxHi < fl.Data().CtxID   // enclosing loops own ids CtxLo..CtxHi, new ones start at CtxID
 //@   requires[stmt_depth] !isExpr(self) ==> fl.Data().OpDepth == 0   // statements (and builtin bodies) are compiled at operator depth 0
 //@   modifies *cr.CS, allelems(*cr.CS), *cr.DS, allelems(*cr.DS), mapof(*cr.Dbg)
 //@   ensures[K2_code]  csKept(cr) && csNewWF(cr)
@@ -197,6 +198,22 @@ package node
 //@   assumes[unfold] exprOK(i.Condition) && wfAST(i.TrueCase) && (dyntype(i.Condition) == typeid[UnOp]() ==> exprOK(i.Condition.(UnOp).Target))
 //@ func (IfElse).byteCode [C05,C12] implements ByteCoder.byteCode
 //@   assumes[unfold] exprOK(i.Condition) && wfAST(i.TrueCase) && wfAST(i.FalseCase) && (dyntype(i.Condition) == typeid[UnOp]() ==> exprOK(i.Condition.(UnOp).Target))
+//
+// for loops: one context id per iterator, allocated above the ids of the enclosing loops; the body
+// sees all of them (CtxLo..CtxHi) so that a return inside nested loops can delete every one.
+//@ pred varRefOK(n ByteCoder) bool := wfAST(n) && (dyntype(n) == typeid[Name]() || dyntype(n) == typeid[Local]())
+//@ func (For).byteCode [C05,C12,C09,C02] implements ByteCoder.byteCode
+//@   assumes[unfold] len(f.Iterators.Elems) == len(f.VarRefs.Elems) && len(f.Iterators.Elems) >= 1 && wfAST(f.Body)
+//@       && (forall k :: 0 <= k && k < len(f.Iterators.Elems) ==> exprOK(f.Iterators.Elems[k]))
+//@       && (forall k :: 0 <= k && k < len(f.VarRefs.Elems) ==> varRefOK(f.VarRefs.Elems[k]))
+//@   atcall f.Body.byteCode with (callee_fl flags.Pass) requires[outer_lo_inherited;C09,C02] fl.Data().InFor ==> callee_fl.Data().CtxLo == fl.Data().CtxLo
+//@   loop 0 invariant[iters] -1 <= rangeindex && rangeindex < len(f.Iterators.Elems) && emitInv(cr) && fresh(jmpAddrs) && old(len(*cr.CS)) <= ccontAddr && ccontAddr <= len(*cr.CS)
+//@       && (rangeindex >= 0 ==> ccontAddr < len(*cr.CS))
+//@       && (forall j :: 0 <= j && j < len(jmpAddrs) ==> old(len(*cr.CS)) <= jmpAddrs[j] && jmpAddrs[j] < len(*cr.CS))
+//@   loop 1 invariant[vars] -1 <= rangeindex && emitInv(cr) && old(len(*cr.CS)) <= ccontAddr && ccontAddr < len(*cr.CS)
+//@       && (forall j :: 0 <= j && j < len(jmpAddrs) ==> old(len(*cr.CS)) <= jmpAddrs[j] && jmpAddrs[j] < len(*cr.CS))
+//@   loop 2 invariant[patch] -1 <= rangeindex && emitInv(cr) && old(len(*cr.CS)) <= ccontAddr && ccontAddr < len(*cr.CS)
+//@       && (forall j :: 0 <= j && j < len(jmpAddrs) ==> old(len(*cr.CS)) <= jmpAddrs[j] && jmpAddrs[j] < len(*cr.CS))
 //
 //@ pred whileOK(w While) bool := exprOK(w.Condition) && wfAST(w.Body) && (dyntype(w.Condition) == typeid[UnOp]() ==> exprOK(w.Condition.(UnOp).Target))
 //@ func (While).byteCode [C05,C12] implements ByteCoder.byteCode
